@@ -4,11 +4,12 @@ import (
 	"encoding/json"
 	"fmt"
 	"strings"
+	"unicode/utf8"
 )
 
 // Tok is the abstract token of spec/Tree.tla.
 type Tok struct {
-	T string   `json:"t"` // "D" directive, "C" closing parenthesis, "I" include
+	T string   `json:"t"` // "D" directive, "C" closing parenthesis, "O" extra opening parenthesis, "I" include
 	K string   `json:"k"`
 	P []string `json:"p"`
 	A string   `json:"a"`
@@ -162,6 +163,11 @@ func renderTokens(toks []Tok, fill bool, lo layout) rendered {
 			afterDescription = false
 			continue
 		}
+		if t.T == "O" { // a "(" beyond the one of the directive's flag
+			wr("(" + lo.trailing)
+			afterDescription = false
+			continue
+		}
 		p := renderParams(t)
 		b := bodyText(t.B)
 		if fill {
@@ -174,7 +180,8 @@ func renderTokens(toks []Tok, fill bool, lo layout) rendered {
 		}
 		if lo.quote {
 			for j := range p {
-				if !strings.HasPrefix(p[j], `"`) {
+				// (bytes which are not UTF-8 do not survive the unquoting: such a parameter stays as it is)
+				if !strings.HasPrefix(p[j], `"`) && utf8.ValidString(p[j]) {
 					p[j] = strconvQuote(p[j])
 				}
 			}
@@ -246,8 +253,16 @@ func bodyText(id string) string {
 	return id
 }
 
+// pathText is the text of a path id; "\xNN" in the pool's text stands for the raw byte (TLA+ strings cannot hold it).
 func pathText(id string) string {
 	if t, ok := pools.Paths[id]; ok {
+		for i := strings.Index(t, `\x`); i >= 0 && i+4 <= len(t); i = strings.Index(t, `\x`) {
+			var b byte
+			if _, err := fmt.Sscanf(t[i+2:i+4], "%02X", &b); err != nil {
+				break
+			}
+			t = t[:i] + string([]byte{b}) + t[i+4:]
+		}
 		return t
 	}
 	return id
